@@ -72,6 +72,17 @@ pub enum Strategy {
     RoundRobin { quantum: u64, left: u64 },
     /// decisions come from a recorded trace
     Replay,
+    /// a script of segments "run thread T until it passes site S for the n-th time (or finishes)":
+    /// long uninterrupted runs with switches placed at chosen kinds of sites
+    Script { segs: Vec<Seg>, cur: usize, hits: u32 },
+}
+
+#[derive(Clone, Copy, Debug)]
+pub struct Seg {
+    pub thread: u8,
+    /// None = until the thread finishes or blocks
+    pub site: Option<u8>,
+    pub nth: u32,
 }
 
 #[derive(Clone, Debug, Default)]
@@ -437,7 +448,10 @@ impl Inner {
                     }
                     if drop {
                         *low = low.saturating_sub(1);
-                        prio[me] = *low;
+                        // classic PCT drops to the lowest priority; every other time re-draw a
+                        // random rank instead, which also reaches orders like "A pauses, B runs to
+                        // completion, A resumes before C"
+                        prio[me] = if spin || self.rng.below(2) == 0 { *low } else { 1000 + self.rng.below(MAXT as u64 * 4) as u32 };
                     }
                 }
                 let mut best = elig[0];
@@ -465,6 +479,43 @@ impl Inner {
                 elig[0]
             }
             Strategy::Replay => unreachable!(),
+            Strategy::Script { segs, cur, hits } => {
+                loop {
+                    let Some(seg) = segs.get(*cur).copied() else { break };
+                    let t = seg.thread as usize;
+                    if !elig.contains(&t) {
+                        *cur += 1;
+                        *hits = 0;
+                        continue;
+                    }
+                    if t == me && me_ok {
+                        if seg.site == Some(site) {
+                            *hits += 1;
+                            if *hits >= seg.nth {
+                                *cur += 1;
+                                *hits = 0;
+                                continue;
+                            }
+                        }
+                        if spin && elig.len() > 1 {
+                            *cur += 1;
+                            *hits = 0;
+                            continue;
+                        }
+                        return me;
+                    }
+                    return t;
+                }
+                // script exhausted: finish fairly
+                if me_ok && !spin {
+                    return me;
+                }
+                let others: Vec<usize> = elig.iter().copied().filter(|&t| t != me || !me_ok).collect();
+                if others.is_empty() {
+                    return me;
+                }
+                others[self.rng.usize(others.len())]
+            }
         }
     }
 }
